@@ -1652,6 +1652,26 @@ def vector_to_parameters(vec, ps):
         ptr += n
 
 
+def clip_grad_norm_(parameters, max_norm, norm_type=2.0, error_if_nonfinite=False, foreach=None):
+    """torch.nn.utils.clip_grad_norm_ for the 2-norm: grads *= clamp(max_norm / (total_norm + 1e-6), max=1)"""
+    if isinstance(parameters, Tensor):
+        parameters = [parameters]
+    ps = [p for p in parameters if getattr(p, "grad", None) is not None]
+    if _pyfloat(norm_type) != 2.0:
+        raise UnsupportedOp("clip_grad_norm_ with norm_type %r" % (norm_type,))
+    if not ps:
+        return tensor(0.0)
+    tot = None
+    for p in ps:
+        sq = (p.grad * p.grad).sum()
+        tot = sq if tot is None else tot + sq
+    total_norm = tot.sqrt()
+    coef = (total_norm + 1e-6).__rtruediv__(max_norm).clamp(max=1.0)
+    for p in ps:
+        p.grad.mul_(coef)
+    return total_norm
+
+
 def _check_param_device(param, old_param_device):
     return -1
 
@@ -1775,6 +1795,7 @@ def install():
     nn.functional = F
     utils = types_ModuleType("torch.nn.utils")
     utils.parameters_to_vector = parameters_to_vector
+    utils.clip_grad_norm_ = clip_grad_norm_
     utils.vector_to_parameters = vector_to_parameters
     cp = types_ModuleType("torch.nn.utils.convert_parameters")
     cp._check_param_device = _check_param_device
